@@ -92,15 +92,15 @@ void snoopy_message_generateFromFormat (
             return; // Should be "break;" but SonarCloud is complaining about it
         }
 
-        // Otherwise copy text up to the next data source tag
-        lengthToCopy = (int) (fmtPos_nextFormatTag - fmtPos_cur + 1); // + 1 for null termination
-        if (lengthToCopy > dataSourceMsgBufSize) {
-            lengthToCopy = dataSourceMsgBufSize;
+        // Otherwise copy text up to the next data source tag (verbatim - not limited by the data source message size)
+        lengthToCopy = (size_t) (fmtPos_nextFormatTag - fmtPos_cur);
+        if (lengthToCopy > 0) {
+            char * literalText = malloc(lengthToCopy + 1); // + 1 for null termination
+            memcpy(literalText, fmtPos_cur, lengthToCopy);
+            literalText[lengthToCopy] = '\0';
+            snoopy_message_append(logMessage, logMessageBufSize, literalText);
+            free(literalText);
         }
-        dataSourceMsg[0] = '\0'; // Let's just use this buffer, even if it is called something else
-        snprintf(dataSourceMsg, lengthToCopy, "%s", fmtPos_cur);
-        snoopy_message_append(logMessage, logMessageBufSize, dataSourceMsg);
-        dataSourceMsg[0] = '\0'; // And wipe it for later reuse
 
         // Get data source tag
         fmtPos_nextFormatTagClose = strstr(fmtPos_nextFormatTag, "}");
